@@ -297,6 +297,19 @@ func runC04(c *Ctx) {
 		}
 	}
 	runC04Batcher(c)
+	{
+		sub := NewCtx(p, "C06", c.Tier, c.Config)
+		sub.Rule("R6", "DEP", "", 0)
+		shareDepth++
+		runC06Caps(sub)
+		shareDepth--
+		c.Rule("R8", "DEP", "an exporter that batches advertises MutatesData – unconditionally behind the exporter's own options (same obligations as the exporter-helper part of C06.R6): merging and splitting always work on data the exporter owns, never on a payload shared read-only with a sibling consumer", 2)
+		for _, o := range sub.Obs {
+			if strings.HasPrefix(o.Construct, "exporter helper") {
+				c.add(o.Verdict, o.Construct, o.Pos, o.Detail)
+			}
+		}
+	}
 	// R5 shared with C03.R6
 	sub := NewCtx(p, "C03", c.Tier, c.Config)
 	runC03(sub)
